@@ -34,8 +34,17 @@ func RunC08TB(r *sim.Run) {
 	const up = "up-a"
 	qps := int32([]int{1, 2, 5, 10, 50, 100, 1000}[t.Draw(7)])
 	burst := qps * int32(t.Range(1, 3))
+	// the schema named "tb" may be declared as a max-in-flight schema for a while (at the
+	// start, or in between) and become a token bucket under the same name: its grants are
+	// then bounded by the bucket declared last
+	tbIsTB := t.Draw(3) != 0
+	flips := 0
 	mk := func() *proxyv1alpha1.UpstreamCluster {
-		o := clusterObj(up, []*schemaCfg{{name: "tb", tb: true, limit: qps, gburst: burst}, {name: "mif", limit: 50}})
+		first := &schemaCfg{name: "tb", tb: true, limit: qps, gburst: burst}
+		if !tbIsTB {
+			first = &schemaCfg{name: "tb", limit: 50}
+		}
+		o := clusterObj(up, []*schemaCfg{first, {name: "mif", limit: 50}})
 		for i := range o.Spec.FlowControl.Schemas {
 			o.Spec.FlowControl.Schemas[i].Strategy = proxyv1alpha1.GlobalCountLimit
 		}
@@ -64,7 +73,22 @@ func RunC08TB(r *sim.Run) {
 	nSteps := t.Range(20, 120)
 	for step := 0; step < nSteps && !r.Violated(); step++ {
 		r.Step = step
-		switch t.Pick([]int{12, 6, 1}) {
+		switch t.Pick([]int{12, 6, 1, 1}) {
+		case 3: // the schema changes its type under the same name
+			tbIsTB = !tbIsTB
+			flips++
+			if tbIsTB {
+				qps = int32([]int{1, 2, 5, 10, 50, 100, 1000}[t.Draw(7)])
+				burst = qps * int32(t.Range(1, 3))
+			}
+			w.PutCluster(mk())
+			w.Advance(100 * time.Millisecond)
+			if tbIsTB {
+				epoch++
+				grants = append(grants, tbGrant{at: w.Now(), n: 0, epoch: -epoch})
+				limits = append(limits, [2]int32{qps, burst})
+			}
+			r.Logf("schema tb is now a token bucket=%v (qps=%d burst=%d)", tbIsTB, qps, burst)
 		case 0:
 			inst := fmt.Sprintf("inst%d", t.Draw(nInst))
 			nReq := 1 + t.Pick([]int{6, 2, 1})
@@ -95,7 +119,7 @@ func RunC08TB(r *sim.Run) {
 			for k, rs := range res.Status.Results {
 				ask := reqs[k].Tokens
 				parts = append(parts, fmt.Sprintf("%s:%d->%v/%d%s", reqs[k].FlowControl, ask, rs.Accept, rs.Limit, map[bool]string{true: " err", false: ""}[rs.Error != ""]))
-				if reqs[k].FlowControl != "tb" {
+				if reqs[k].FlowControl != "tb" || !tbIsTB {
 					continue
 				}
 				asked++
@@ -125,6 +149,9 @@ func RunC08TB(r *sim.Run) {
 			w.Advance(d)
 			r.Logf("advance %v", d)
 		case 2: // the limit changes: a new bucket; grants are bounded per epoch of unchanged limits
+			if !tbIsTB {
+				break
+			}
 			qps = int32([]int{1, 2, 5, 10, 50, 100, 1000}[t.Draw(7)])
 			burst = qps * int32(t.Range(1, 3))
 			w.PutCluster(mk())
@@ -175,6 +202,7 @@ func RunC08TB(r *sim.Run) {
 	r.ProbeN("token_asks", asked)
 	r.ProbeN("negative_asks", refusedNeg)
 	r.ProbeN("grants_smaller_than_ask", halved)
+	r.ProbeN("schema_type_changes_under_one_name", flips)
 	r.ProbeN("limit_changes", epoch)
 	r.Nontrivial = len(grants) >= 5 && halved > 0
 	r.Sample = map[string]interface{}{"qps": qps, "burst": burst, "instances": nInst, "asks": asked, "grants": len(grants), "halved": halved, "store": storeKind}
